@@ -47,14 +47,55 @@ type zzStageCase struct {
 
 func zzStageProgram() zzStageCase {
 	loc := zzLocSets[zz.Choice("locations", len(zzLocSets))]
-	ib := zzInterps[zz.Choice("interp-b", len(zzInterps))]
-	id := zzInterps[zz.Choice("interp-d", len(zzInterps))]
+	// quick tier: every interpolation on one varying while the other keeps the default (and
+	// the flat / sample pair); thorough tier: the full product
+	var ib, id [2]string
+	if zz.Thorough() {
+		ib = zzInterps[zz.Choice("interp-b", len(zzInterps))]
+		id = zzInterps[zz.Choice("interp-d", len(zzInterps))]
+	} else {
+		k := zz.Choice("interp", len(zzInterps))
+		switch zz.Choice("varying", 3) {
+		case 0:
+			ib, id = zzInterps[k], zzInterps[0]
+		case 1:
+			ib, id = zzInterps[0], zzInterps[k]
+		default:
+			ib, id = zzInterps[k], zzInterps[(k+3)%len(zzInterps)]
+		}
+	}
 	swap := zz.Choice("colours", 2)
 	colX, colY := 1, 0
 	if swap == 1 {
 		colX, colY = 0, 2
 	}
-	zz.Cell(fmt.Sprintf("loc %v b:%s d:%s", loc, ib[1], id[1]))
+	mixed := zz.Choice("fragment-arguments", 2) == 1
+	zz.Cell(fmt.Sprintf("loc %v b:%s d:%s mixed:%v", loc, ib[1], id[1], mixed))
+	if mixed {
+		// the fragment entry point takes varying c as a directly bound argument and the
+		// others through a struct of its own
+		src := fmt.Sprintf(`struct VOut {
+  @builtin(position) pos: vec4<f32>,
+  @location(%d) @interpolate(flat) a: u32,
+  @location(%d) %s b: vec2<f32>,
+  @location(%d) c: f32,
+  @location(%d) %s d: vec4<f32>,
+}
+@vertex fn vs(@location(2) p: vec3<f32>, @location(0) q: u32, @builtin(vertex_index) vi: u32) -> VOut {
+  return VOut(vec4<f32>(p, 1.0), q + vi, p.xy, p.z, vec4<f32>(p, 0.5));
+}
+struct FIn {
+  @location(%d) %s d: vec4<f32>,
+  @location(%d) @interpolate(flat) a: u32,
+  @location(%d) %s b: vec2<f32>,
+}
+struct FOut { @location(%d) x: vec4<f32>, @location(%d) y: vec4<u32>, @builtin(frag_depth) z: f32 }
+@fragment fn fs(@location(%d) c: f32, i: FIn, @builtin(front_facing) ff: bool) -> FOut {
+  return FOut(i.d, vec4<u32>(bitcast<vec2<u32>>(i.b), bitcast<u32>(c), i.a), select(0.25, 0.5, ff));
+}
+`, loc[0], loc[1], ib[0], loc[2], loc[3], id[0], loc[3], id[0], loc[0], loc[1], ib[0], colX, colY, loc[2])
+		return zzStageCase{src: src, loc: loc, interpB: ib[1], interpD: id[1], colX: colX, colY: colY}
+	}
 	src := fmt.Sprintf(`struct VOut {
   @builtin(position) pos: vec4<f32>,
   @location(%d) @interpolate(flat) a: u32,
